@@ -77,6 +77,23 @@ def faithful_findings(case, max_findings=3):
     with StepCapture() as cap:
         sampler = plumbing.build_sampler(case, case.seed, model)
         sampler.start_position = plumbing.start_positions(case)
+
+        def current_paths(where):
+            # current_* through every path, also before the first iteration and right after a clear,
+            # and the values themselves: the model's outputs at the current position
+            try:
+                for key, text, extra in _access_paths(sampler, current_only=True):
+                    bad(key, where + ': ' + text, extra)
+                for ci, ch in enumerate(sampler.chains):
+                    for t, l in enumerate(I.levels_of(ch)):
+                        cp, cs = l.current_position, l.current_stats
+                        r = ref(**{p: cp[p] for p in params})
+                        if not (_eq(cs['logl'], r[0]) and _eq(cs['logp'], r[1])):
+                            bad('current-unfaithful', '%s: current_stats %s are not the model outputs %s at the current position'
+                                % (where, dict(cs), r[:2]), {'chain': ci, 'level': t})
+            except Exception as e:      # noqa: BLE001
+                bad('current-raises', '%s: reading the current values raised %r' % (where, e), None)
+        current_paths('after setting the start positions')
         for op in case.ops:
             if op[0] == 'run':
                 cap.events = []
@@ -107,6 +124,7 @@ def faithful_findings(case, max_findings=3):
                                 {'iteration': ev['iteration'], 'previous': str(ev['prev_pos']), 'recorded': str(ev['pos'])})
             elif op[0] == 'clear':
                 sampler.clear()
+                current_paths('after a clear')
             elif op[0] == 'saveload':
                 try:
                     st = pickle.loads(pickle.dumps(sampler.state))
@@ -115,6 +133,7 @@ def faithful_findings(case, max_findings=3):
                 new = plumbing.build_sampler(case, case.seed + 7919, model)
                 new.set_state(st)
                 sampler = new
+                current_paths('after loading a state')
             elif op[0] in ('dump', 'getall'):
                 _check_history(case, sampler, ref, params, bad)
         _check_history(case, sampler, ref, params, bad)
@@ -229,15 +248,15 @@ def _fields_equal(a, b):
     return True
 
 
-def _access_paths(sampler):
+def _access_paths(sampler, current_only=False):
     """Every array the sampler and its chains hand out is the same data as the per-level arrays:
     positions / stats / acceptance / blobs (level -> tempered chain -> sampler), current_* (level ->
     tempered chain -> sampler), swap history (chain -> sampler).  Yields (key, text, extra)."""
     chains = list(sampler.chains)
-    if not chains or chains[0].iteration == 0:
+    if not chains or (chains[0].iteration == 0 and not current_only):
         return
     ispt = isinstance(chains[0], ParallelTemperedChain)
-    retained = len(chains[0]) > 0
+    retained = len(chains[0]) > 0 and not current_only
     hasblobs = bool(I.levels_of(chains[0])[0].hasblobs)
     fields = ('positions', 'stats', 'acceptance') + (('blobs',) if hasblobs else ())
     if retained:
@@ -280,6 +299,8 @@ def _access_paths(sampler):
                 if not _fields_equal(S[:, ci], getattr(ch, f)):
                     yield ('sampler-stack:' + f, 'sampler.%s differs from the chain\'s array' % f, {'chain': ci})
                     break
+    if current_only:
+        return
     if sampler.niterations != chains[0].iteration:
         yield ('sampler-niterations', 'sampler.niterations differs from the chains\' iteration', None)
 
